@@ -49,7 +49,7 @@ BOUNDED = [
         "script": "replay/c13_native.py",
         "args_quick": [],
         "args_thorough": ["--thorough"],
-        "bound": "9 statement shapes (15 thorough: 3 relations, sub-query, CTE) x every subset of the tables in scope known x column overlap none/partial x {dict provider, SQLAlchemy on in-memory sqlite} x {ansi, non-validating}; 8 scripts for table-level equality incl. empty and unrelated providers; provider isolation; no-provider baseline",
+        "bound": "9 statement shapes (15 thorough: 3 relations, sub-query, CTE) x every subset of the tables in scope known x column overlap none/partial x {dict provider, SQLAlchemy on in-memory sqlite} x {ansi, non-validating}; 8 scripts for table-level equality incl. empty and unrelated providers; provider isolation; no-provider baseline; + two in-scope tables with the same bare name in different schemas (both join orders, both providers); + a provider reused after a run that failed part-way",
     }
 ]
 LEVEL_TEXT = (
